@@ -146,9 +146,38 @@ SerdeRel(op, a, r) ==
                                 r.t = "Tup" /\ Len(r.c) = 2 /\ r.c[1] = Bv(DecAccepts(keys)) /\ (DecAccepts(keys) => r.c[2] = Bv(TRUE))
     [] OTHER -> FALSE
 
-MiscRelOps == ApproxOps \cup PredOps \cup {"cast", "serde_shape", "serde_special", "serde_dec_keys"}
+\* ------------------------------------------------------------------------ pipeline C
+\* Integer projections of floating-point results (computed by the recorder in f64 from the native values).
+\* The model knows the exact rational inputs, so it knows which side of each threshold they are on.
+IsIntTup(x, n) == x.t = "Tup" /\ Len(x.c) = n
+ProjOps == {"slerp_proj", "nlerp_proj", "unit_roundtrip", "normalize_native", "turn_div_exact", "full_turn_value", "euler_proj"}
+ProjRel(op, k, a, r) ==
+  LET wide == k = "f32" IN
+  CASE op \in {"slerp_proj", "nlerp_proj"} ->
+         /\ IsIntTup(r, 4)
+         /\ r.c[1].c[1] <= 8                                   \* unit: within 8 machine epsilons
+         /\ r.c[3].c[1] <= 64                                  \* in the plane of a and b
+         /\ r.c[4].c[1] = TRUE                                 \* on the shorter arc, between a and +-b
+         /\ (op = "slerp_proj" =>                              \* constant angular speed            (C14)
+               LET d == RAbs(Dot(a[1].c, a[2].c)) IN
+               IF RLe(d, <<9995, 10000>>) THEN r.c[2].c[1] <= (IF wide THEN 5000 ELSE 50)          \* exactly, up to rounding
+               ELSE r.c[2].c[1] <= (IF wide THEN 15000 ELSE 10000))                                \* within 1e-5 rad
+    [] op = "unit_roundtrip" -> r.t = "I" /\ r.c[1] <= 4       \* relative error at most 4 machine epsilons   (C13)
+    [] op = "normalize_native" -> /\ IsIntTup(r, 4) /\ r.c[1].c[1] = TRUE /\ r.c[2].c[1] = TRUE
+                                  /\ r.c[3].c[1] <= (IF wide THEN 20000 ELSE 10) /\ r.c[4].c[1] <= (IF wide THEN 20000 ELSE 10)
+    [] op = "turn_div_exact" -> r = Bv(TRUE)
+    [] op = "full_turn_value" -> r.t = "I" /\ r.c[1] <= 1
+    [] op = "euler_proj" ->                                     \* (C07)
+         /\ IsIntTup(r, 5) /\ SurdQuatOK(a[1].c)
+         /\ LET siny == SurdQMat3(a[1].c)[3][1] IN
+            IF RAbsLe(siny, <<998, 1000>>) THEN r.c[4].c[1] <= 1 /\ r.c[5].c[1] = TRUE
+            ELSE r.c[1].c[1] = TRUE /\ r.c[2].c[1] = TRUE /\ r.c[3].c[1] = RSgn(siny) /\ r.c[4].c[1] <= 130
+    [] OTHER -> FALSE
+
+MiscRelOps == ApproxOps \cup PredOps \cup ProjOps \cup {"cast", "serde_shape", "serde_special", "serde_dec_keys"}
 MiscRel(op, k, f, a, r) ==
   IF op \in ApproxOps \cup PredOps THEN ApproxRel(op, k, f, a, r)
+  ELSE IF op \in ProjOps THEN ProjRel(op, k, a, r)
   ELSE IF op = "cast" THEN CastRel(a, r)
   ELSE SerdeRel(op, a, r)
 =============================================================================
